@@ -49,7 +49,12 @@ def get_tornado_handler(engineio_server):
             self.receive_queue.put_nowait(None)
 
         def check_origin(self, origin):
-            if self.allowed_origins is None or origin in self.allowed_origins:
+            if self.allowed_origins is None or \
+                    callable(self.allowed_origins) or \
+                    self.allowed_origins == [] or \
+                    origin in self.allowed_origins:
+                # (a predicate, or no check at all when origin checking is
+                # disabled, is applied by the server when it gets the request)
                 return True
             return super().check_origin(origin)
 
